@@ -425,6 +425,7 @@ def run(chk):
     chk.rule('R6', 'ArgListIterator: the cursor invariant (four cases) is established and preserved; every argv[ i] '
              'and word[ j] access is inside', 40)
     from . import c04_cursor
-    c04_cursor.run(chk, prog)
+    chk.rule('R9', 'every step of the argument iterator moves the cursor forward (the element loop terminates)', 4)
+    c04_cursor.run(chk, prog, progress_rule='R9')
     if eng.unsupported:
         chk.notes.append('constructs evaluated as opaque: %s' % sorted(set(eng.unsupported))[:12])
